@@ -250,6 +250,19 @@ def enum_c05():
         add('new_family_nexthop_forms', cf, 'ebgp', E.update([], base(cf, skip=(3,)) + [E.attr(0x80, 14, E.mp_reach_value(fam, fill(16), [n]))], []).d)
     for nh in ([0] * 8 + [1, 1, 1, 1], [0] * 8 + fill(16), fill(4), fill(16), fill(32)):
         add('vpn_nexthop_forms', c4, 'ebgp', E.update([], base(c4, skip=(3,)) + [E.attr(0x80, 14, E.mp_reach_value(E.IPV4_VPN, nh, [E.vpn([100], [0, 0, 0, 1, 0, 0, 0, 1], 24, [10, 0, 1])]))], []).d)
+    # list-valued attributes whose length must be a non-zero multiple of the element width (COMMUNITY 4,
+    # EXTENDED_COMMUNITY 8, CLUSTER_LIST 4, LARGE_COMMUNITY 12, IPv6 ext. communities 20): every length
+    # around each multiple near the one-octet / two-octet length switch and past it, so a width test done
+    # on a truncated length (e.g. the low octet) shows: 252..300, 504..532, 1020..1032, 4080..4092
+    for code, width, fl in ((8, 4, 0xc0), (16, 8, 0xc0), (10, 4, 0x80), (32, 12, 0xc0), (25, 20, 0xc0)):
+        lens = set()
+        for lo, hi in ((252, 300), (504, 532), (1020, 1032)):
+            lens.update(range(lo, hi + 1))
+        lens.update((0, 1, width - 1, width, width + 1, 2 * width, 255, 256 + width, 256 + 2 * width, 512 + width))
+        for n in sorted(lens):
+            if code == 10 and n > 300: continue
+            add('list_attr_length_x_width_%d' % code, c4, 'ibgp' if code == 10 else 'ebgp',
+                E.update([], base(c4) + [E.attr(fl, code, fill(n))], nl).d)
     return out
 
 class Prop:
